@@ -45,6 +45,7 @@ func (C06) Gen(r *simrt.RNG, tier string) core.Case {
 		return gens[r.Intn(len(gens))].Gen(r, tier)
 	}
 	cfg := world.SwarmCfg(r)
+	world.Deepen(&cfg, r, tier)
 	cfg.RepeatPos = r.Chance(1, 4)
 	var w world.World
 	switch x := r.Intn(20); {
